@@ -5,17 +5,12 @@ reg("C12",
     check_imports=["Model.Lifecycle", "Check.C12_Check"],
     case_type="c12_case", verdicts="c12_verdicts",
     property_modules=["Properties.C12"],
-    theorems=["c12_returns", "c12_no_call_after", "c12_mutex", "c12_fail_stops_all", "c12_restart_point",
+    theorems=["c12_returns", "c12_file_blocking_points", "c12_no_call_after", "c12_mutex", "c12_fail_stops_all", "c12_restart_point",
               "c12_eternal_unfixed_refuted", "c12_joining_unfixed_refuted"],
-    partial=[{"theorem": "c12_returns", "full_statement": "C12_returns_file_full (Spec/C12_Spec.v)",
-              "proved": "C12_returns_file_partial; the eternal, joining, hub-subscription and multiplexed clauses of c12_returns are full",
-              "gap": "FileSource only: the invariant 'a file sent on fileStream gets its goroutine from launchReader's next step' "
-                     "and the ranking over the unbounded list of file goroutines are not proved; closing, the escape of every "
-                     "blocking point of run() and of the file goroutines, and no-call-after are proved; exercised by the harness"}],
     proof_files=["Base/Prelude.v", "Model/Lifecycle.v", "Spec/C12_Spec.v",
                  "Proofs/C12_Sched.v", "Proofs/C12_Eternal.v", "Proofs/C12_Joining.v", "Proofs/C12_JoiningLive.v",
                  "Proofs/C12_Subscription.v", "Proofs/C12_MuxBase.v", "Proofs/C12_MuxMutex.v", "Proofs/C12_MuxShut.v",
-                 "Proofs/C12_MuxLive.v", "Proofs/C12_FileSource.v", "Proofs/C12_Proofs.v",
+                 "Proofs/C12_MuxLive.v", "Proofs/C12_FileSource.v", "Proofs/C12_FileLive.v", "Proofs/C12_Proofs.v",
                  "Properties/C12.v", "Check/C12_Check.v"],
     rule="corpus (always): a complete Shutdown injected at every verif schedule point of EternalSource (5 points x 1st/2nd "
          "passage x 3 inner-source scripts), JoiningSource (7 points x 7 configurations), MultiplexedSource (8 points incl. "
@@ -43,8 +38,8 @@ reg("C12",
                  "blockstream.Source (gRPC) is not modelled; EternalSource is modelled without startBackAt (delegating variant)"],
     level_text="Unbounded theorems over ALL schedules (lists of thread ids; blocked threads stutter) about hand-written Gallina "
                "models of the shutter protocol and of EternalSource, JoiningSource, MultiplexedSource, hub.Subscription and FileSource: "
-               "c12_returns (closing + deadlock freedom + termination under weak fairness from a ranking function; full for eternal, "
-               "joining, subscription, multiplexed, partial for the file source), c12_no_call_after, c12_mutex, c12_fail_stops_all, "
+               "c12_returns (closing + deadlock freedom + termination under weak fairness from a ranking function, for all five "
+               "source types), c12_no_call_after, c12_mutex, c12_fail_stops_all, "
                "c12_restart_point, all closed under the global context; plus machine-checked witnesses that the code before the two "
                "fix: patches hangs. The models are tied to the real code on every run: the event log (schedule points passed, factory "
                "calls, handler begin/end, inner-source shutdowns, return of Run) of the model run on the schedule a directed injection "
